@@ -288,7 +288,8 @@ def conflict_monitor(out, ids, deps, phase, counters, rec, wit):
 
 
 def gen_script(rng):
-    g = prog.Gen(rng, profile="py", nphases=1, max_ops=rng.choice([4, 6, 8, 10]), containers=True)
+    g = prog.Gen(rng, profile="py", nphases=1, max_ops=rng.choice([4, 6, 8, 10]), containers=True,
+                 lookups=True)
     sc = g.script()
     return sc
 
